@@ -11,6 +11,8 @@ is by construction the left-to-right leaf sequence (pointer linkage: trusted bas
 import TlxVerif.Model.C01Tree
 import TlxVerif.Model.C01Erase
 import TlxVerif.Proofs.C01Main
+import TlxVerif.Proofs.C01Copy
+import TlxVerif.Proofs.C01EraseE
 namespace TlxVerif.C02
 open TlxVerif.C01
 
@@ -86,14 +88,42 @@ theorem lifetime_balance (p : Params K) (pv : p.Valid) (sw : StrictWeak p.lt) :
       (by omega) (by omega)
     exact ⟨t', la', ia', by simp only [runInsertsLedger, hres]; exact h3, h4, h5, h6⟩
 
--- OPEN: inv_erase — `eraseOne` / `eraseIter` (Model/C01Erase.lean: underflow case table, merge_*,
---   shift_left_*, shift_right_*, root collapse) preserve `TreeInv` and free exactly the nodes by which
---   the tree shrinks.  Transliterated and checked structurally against the implementation (incl. stats_
---   and the per-operation free counts) on every run; not yet proved.
+/-- `erase_one` / `erase(iterator)` are total on well-shaped trees — no child index out of range, no key
+read from an empty node, no rebalancing with a cousin, no null sibling dereferenced (every `none` of
+`Model/C01Erase.lean`) — and keep balance, fill bounds, level fields, child counts and `stats_`;
+the nodes freed are exactly the nodes by which the tree shrinks, nothing is allocated -/
+theorem erase_shape_ledger (p : Params K) (pv : p.Valid) (tg : Target K) (t : Tree K V) (ht : TreeInv p t) :
+    ∃ res, eraseTop p t tg = some res ∧ TreeShape p res.tree ∧
+      res.tree.nLeaves + res.ledger.leafFree = t.nLeaves ∧ res.tree.nInner + res.ledger.innerFree = t.nInner ∧
+      res.ledger.leafAlloc = 0 ∧ res.ledger.innerAlloc = 0 := by
+  obtain ⟨res, hres, hno, hyes⟩ := eraseTop_ok p pv tg t ht.1
+  refine ⟨res, hres, ?_⟩
+  cases he : res.erased with
+  | false =>
+    obtain ⟨h1, h2⟩ := hno he
+    rw [h1, h2]
+    exact ⟨ht.1, by simp, by simp, rfl, rfl⟩
+  | true =>
+    have hok := hyes he
+    exact ⟨hok.shape, hok.lcnt, hok.icnt, hok.noalloc.1, hok.noalloc.2⟩
+
+/-- `erase_one(key)` keeps the shape invariant, the key order of the entry sequence and the bookkeeping -/
+theorem inv_erase_one_partial (p : Params K) (pv : p.Valid) (sw : StrictWeak p.lt) (t : Tree K V) (ht : TreeInv p t)
+    (k : K) :
+    ∃ res, eraseOne p t k = some res ∧ TreeShape p res.tree ∧ SortedE p.lt res.tree.toList ∧
+      res.tree.nLeaves + res.ledger.leafFree = t.nLeaves ∧ res.tree.nInner + res.ledger.innerFree = t.nInner := by
+  obtain ⟨res, h1, _, h3, h4, h5, h6, _⟩ := eraseOne_spec p pv sw t ht k
+  exact ⟨res, h1, h3, h4, h5, h6⟩
+
+-- OPEN: inv_erase — the remaining conjunct of `TreeInv` after an erase: every separator is again equivalent
+--   to the largest key below it (`SepOk`): the `btree_update_lastkey` propagation, the separator rewritten by
+--   shift_left_*/shift_right_*, the key pulled down by merge_inner and the level-1 refresh in the
+--   `btree_fixmerge` handling.  Modelled, checked structurally against the implementation and against
+--   verify() on every run; not yet proved.  (Balance, fill, levels, child counts, key order, stats and the
+--   ledger are proved: `erase_shape_ledger`, `inv_erase_one_partial`.)
 def inv_erase_statement (p : Params K) : Prop :=
-  ∀ (t : Tree K V) (k : K), TreeInv p t →
-    ∃ res, eraseOne p t k = some res ∧ TreeInv p res.tree ∧
-      res.tree.nLeaves + res.ledger.leafFree = t.nLeaves ∧ res.tree.nInner + res.ledger.innerFree = t.nInner
+  ∀ (t : Tree K V) (tg : Target K), TreeInv p t →
+    ∃ res, eraseTop p t tg = some res ∧ TreeInv p res.tree
 
 -- OPEN: inv_bulk_load — `bulkLoad` of a sorted range yields a state satisfying `TreeInv` whose ledger
 --   equals its node count (the `n / (parts - i)` distribution keeps every node at least half full).
